@@ -20,6 +20,9 @@ var typeTags = map[string]int{}
 
 func typeTag(t types.Type) int {
 	k := types.TypeString(types.Unalias(t), nil)
+	if k == "[]uint8" {
+		k = "[]byte" // one dynamic type, two spellings
+	}
 	if n, ok := typeTags[k]; ok {
 		return n
 	}
@@ -132,7 +135,12 @@ func (vc *VC) unboxAs(st *State, x Term, xt, t types.Type) Term {
 		vc.ufs[uname] = true
 		vc.emit(fmt.Sprintf("(declare-fun %s (Int) %s)", uname, srt))
 	}
-	return app(srt, uname, x)
+	r := app(srt, uname, x)
+	if srt == SSlc && st != nil && !strings.Contains(r.S, "q$") {
+		// typed memory: what is unboxed as a slice is a slice
+		st.assume(vc.rangeFact(t, r))
+	}
+	return r
 }
 
 func (vc *VC) typeAssert(st *State, x Term, xt, t types.Type, at ast.Expr) Term {
@@ -944,6 +952,9 @@ func (vc *VC) bindAnchors(fi *FuncInfo, c *FuncContract) {
 				return true
 			}
 			txt = "recv:" + nodeText(vc.prog.Fset, x.X)
+		case *ast.ReturnStmt:
+			// "return#k" anchors the k-th return statement (source order, closures included)
+			txt = "return"
 		case *ast.SendStmt:
 			txt = "send:" + nodeText(vc.prog.Fset, x.Chan)
 		case *ast.IncDecStmt:
@@ -1027,6 +1038,8 @@ func (vc *VC) nodeAnchors(st *State, n ast.Node, when string, results []Term, pr
 		vc.resultGoTypes = []types.Type{vc.typeOf(x.Value)}
 	case *ast.UnaryExpr:
 		vc.resultGoTypes = []types.Type{vc.typeOf(x)}
+	case *ast.ReturnStmt:
+		vc.resultGoTypes = vc.resultGoTypesOverride
 	}
 	defer func() { vc.resultGoTypes = nil }()
 	for _, it := range vc.anchoredNodes[n] {
